@@ -600,7 +600,11 @@ def spec_well_defined(f):
 
 
 def run_cli_combo(bits, fake_url, workdir):
-    import shutil, tempfile
+    import shutil, tempfile, zlib
+    forced_kind = None
+    if "/" in bits:
+        bits, fk = bits.split("/")
+        forced_kind = int(fk)
     f = dict(zip(FLAG_NAMES, [b == "1" for b in bits]))
     d = tempfile.mkdtemp(prefix="c18_", dir=workdir)
     inp = os.path.join(d, "in.log")
@@ -639,7 +643,7 @@ def run_cli_combo(bits, fake_url, workdir):
     # redirected regular file (a just-rotated log) and an empty pipe all count
     stdin = None
     if f["stdin"]:
-        kind = int(bits, 2) % 4
+        kind = forced_kind if forced_kind is not None else zlib.crc32(bits.encode()) % 4
         empty = os.path.join(d, "empty.log")
         open(empty, "wb").close()
         stdin = [open(inp, "rb").read(), ("file", inp), ("file", empty), b""][kind]
@@ -670,12 +674,19 @@ def oracle_c18(tables, seed, tier, deep):
         while len(combos) < 700:
             combos.add(format(rng.below(8192), "013b"))
     combos = sorted(combos)
+    # every kind of stdin for the jobs around "stdin is the input": alone, with an output file, together with a file argument, together with Atlas parameters
+    def bitsof(**kw):
+        return "".join("1" if kw.get(nm) else "0" for nm in FLAG_NAMES)
+    for kind in range(4):
+        for kw in (dict(stdin=1), dict(stdin=1, out=1), dict(stdin=1, file=1), dict(stdin=1, file=1, out=1), dict(stdin=1, regexp=1),
+                   dict(stdin=1, project=1, cluster=1, out=1, pub=1, priv=1), dict(stdin=1, encrypt=1, out=1)):
+            combos.append("%s/%d" % (bitsof(**kw), kind))
     payload = fakeatlas.gz(b'{"t":{"$date":"2024-01-01T00:00:00.000+00:00"},"s":"I","c":"COMMAND","id":1,"ctx":"c","msg":"Slow query","attr":{"ns":"db.c","command":{"find":"c","filter":{"a":"atlassecret"}}}}\n')
     fake = fakeatlas.Fake(fakeatlas.Scenario(["h1.example.net:27017"], [payload]))
     work = tempfile.mkdtemp(prefix="verif_c18_")
     viol = []
     dist = collections.Counter()
-    model = lean_exec([(b, ["validate", b]) for b in combos])
+    model = lean_exec([(b, ["validate", b.split("/")[0]]) for b in combos])
     try:
         def one(b):
             before = len(fake.log)
@@ -684,6 +695,7 @@ def oracle_c18(tables, seed, tier, deep):
         results = []
         par = [b for b in combos if not (b[6] == "1" and b[7] == "1")]
         ser = [b for b in combos if b[6] == "1" and b[7] == "1"]
+        stdin_kinds = ["a pipe with data", "a redirected file", "an EMPTY redirected file", "an empty pipe"]
         with ThreadPoolExecutor(max_workers=12) as ex:
             results += list(ex.map(one, par))
         for b in ser:
@@ -709,6 +721,8 @@ def oracle_c18(tables, seed, tier, deep):
                 elif not se.strip():
                     site, detail = "silent", "rejected job printed no explanation"
             if site:
+                if "/" in b:
+                    detail += " (stdin is %s)" % stdin_kinds[int(b.split("/")[1])]
                 viol.append({"site": "cli:" + site + ":" + "+".join(flags), "detail": detail, "bits": b, "flags": flags, "input": b})
             md = model.get(b, "")
             if md and (md.startswith("accept") != (rc == 0)):
@@ -1370,6 +1384,23 @@ def oracle_c10(tables, seed, tier, deep):
         fifo = os.path.join(work, "fifo.key")
         os.mkfifo(fifo)
         outs = {}
+        # process substitution, `-q <(cat key)`: the key arrives on an inherited pipe named /dev/fd/N
+        rfd, wfd = os.pipe()
+        os.write(wfd, base64.b64encode(HARNESS_KEY))
+        os.close(wfd)
+        e = dict(os.environ)
+        e.pop("VERIF_HARNESS", None)
+        outp = os.path.join(work, "out-procsubst")
+        try:
+            with open("/dev/null", "rb") as dn:
+                p = subprocess.run([harness_bin(), "redact", inp, "-o", outp, "--encrypt", "--encryptionKeyFile", "/dev/fd/%d" % rfd], stdin=dn, capture_output=True, env=e, cwd=work, timeout=20, pass_fds=(rfd,))
+            rcp = p.returncode
+        except subprocess.TimeoutExpired:
+            rcp = -9
+        os.close(rfd)
+        extra += 1
+        dist["key-via:procsubst"] += 1
+        outs["process substitution (/dev/fd/N)"] = (rcp, open(outp, "rb").read() if os.path.exists(outp) else None)
         for how, path in (("regular", reg), ("symlink", os.path.join(work, "link.key")), ("dir-symlink", os.path.join(work, "kdlink", "k.key")), ("fifo", fifo), ("regular-again", reg)):
             outp = os.path.join(work, "out-" + how)
             th = None
@@ -1407,6 +1438,8 @@ def oracle_c10(tables, seed, tier, deep):
             viol.append({"site": "cli:encrypt-run-failed", "detail": "exit %d" % ref[0], "input": open(inp).read()[:200]})
         else:
             for how, (rc, data) in outs.items():
+                if rc == -9:
+                    viol.append({"site": "key-via-" + how.split(" ")[0] + ":hang", "detail": "the key given as a %s: the run neither finished nor failed within 20 s" % how, "input": open(inp).read()[:300]})
                 if rc == 0 and data != ref[1]:
                     viol.append({"site": "nondeterministic:key-via-" + how, "detail": "the same key given as a %s: exit 0 but the ciphertexts differ from those of the run that read it from a regular file (another key was used)" % how,
                                  "input": open(inp).read()[:300], "cli_flags": ["redact", "in.log", "-o", "out", "--encrypt", "--encryptionKeyFile", "<" + how + ">"]})
